@@ -46,6 +46,10 @@ class Domain:
         """False when the rule knows the loop body runs at least once (e.g. range(num_dof), num_dof >= 1)."""
         return True
 
+    def while_may_skip(self, node, state):
+        """False when the rule knows the body of this `while` runs at least once (a counting loop `k = 0; while k < num_dof`)."""
+        return True
+
     MAX_STATES = 256
     MAX_ITERS = 40
 
@@ -225,7 +229,10 @@ class Flow:
             if is_while:
                 new_e = self._effects(st.test, new)
                 enter = split_cond(dom, st.test, True, new_e)
-                exit_normal |= split_cond(dom, st.test, False, new_e)
+                leave = split_cond(dom, st.test, False, new_e)
+                if iters == 1:
+                    leave = {s for s in leave if dom.while_may_skip(st, s)}
+                exit_normal |= leave
             else:
                 enter = set()
                 if iters == 1:
